@@ -48,9 +48,14 @@ __CPROVER_requires(nv_exp_feature == NV_IDX(features->id, begin + nv_k) && nv_ex
 __CPROVER_assigns(nv_cb_calls, nv_elem, nv_thrown) \
 __CPROVER_ensures(nv_cb_calls == end - begin)
 /* the loop counter is named through NV_LOOPVAR_<fn>_1 (found by its role): a renamed counter does not break the invariant */
+#define NV_ELEM_KEEPS(f, K) ((nv_elem.f.slot == __CPROVER_loop_entry(nv_elem.f.slot) && nv_elem.f.kind == __CPROVER_loop_entry(nv_elem.f.kind)) \
+  || (nv_elem.f.slot == tnum && nv_elem.f.kind == (K)))
 #define NV_FS_TASK_LOOP(kind, index) \
 __CPROVER_assigns(index, nv_cb_calls, nv_elem, nv_thrown) \
 __CPROVER_loop_invariant(begin <= index && index <= end && nv_cb_calls == index - begin) \
+/* the tags of the per-thread buffer element are either still what they were at loop entry (the buffer reference was taken BEFORE the \
+ * loop: a maintainer may hoist `m_buffers[tnum].m_<kind>` into a local) or what the accessor writes for THIS worker (taken inside) */ \
+__CPROVER_loop_invariant(NV_ELEM_KEEPS(m_sclass, NV_K_SCLASS) && NV_ELEM_KEEPS(m_mclass, NV_K_MCLASS) && NV_ELEM_KEEPS(m_scalar, NV_K_SCALAR) && NV_ELEM_KEEPS(m_struct, NV_K_STRUCT)) \
 __CPROVER_decreases(end - index)
 #define NV_CONTRACT_fsel_task_sclass NV_FS_TASK(NV_K_SCLASS)
 #define NV_LOOP_fsel_task_sclass_1 NV_FS_TASK_LOOP(NV_K_SCLASS, NV_LOOPVAR_fsel_task_sclass_1)
